@@ -14,7 +14,7 @@ use serde_json::json;
 
 const COUNTERS: &[(u32, u32)] = &[(0, 1), (1, 2), (49, 60), (99, 100), (100, 255), (0, 256), (7, 300), (3, 5949), (0, 1000), (149, 9999)];
 
-const ALPHABET: &[&str] = &["p", "P", "k", "K", "q", "r", "n", "b", "x", "0", "1", "8", "9", " ", "  ", "-", "/", "w", "b", "e", "3", "6", "a", "h", "i", ":", "\t", "\u{00e9}", "\u{265e}", "+", "KQkq", "\u{0661}"];
+const ALPHABET: &[&str] = &["p", "P", "k", "K", "q", "r", "n", "b", "x", "0", "1", "8", "9", " ", "  ", "-", "/", "w", "b", "e", "3", "6", "a", "h", "i", ":", "\t", "\u{00e9}", "\u{265e}", "+", "KQkq", "\u{0661}", "\n", "\r\n", "\r", "\u{feff}", "\u{00a0}"];
 
 fn loader(fen: &str) -> Result<Result<BoardState, String>, String> {
     seam::install_panic_hook();
